@@ -703,6 +703,23 @@ func init() {
 			p := &Plan{Scenario: "W"}
 			p.Cfg = genConfig(r, pf)
 			p.Ops = genHistory(r, pf, &p.Cfg)
+			if n%40 == 7 {
+				// a witness configured with many logs (more than any label-cardinality guard would expect): one accepted
+				// update, one split view and one bad proof per log
+				p.Cfg.Logs = nil
+				p.Ops = nil
+				for i := 0; i < 70; i++ {
+					p.Cfg.Logs = append(p.Cfg.Logs, LogCfg{Origin: fmt.Sprintf("sim.example/many%d", i), Key: i % 3, Forks: []ForkCfg{{Parent: 0, At: 0}}})
+					p.Ops = append(p.Ops, Op{K: "update", L: i, Sz: "rel1", D: 2}, Op{K: "update", L: i, B: 1, D: 0}, Op{K: "update", L: i, D: 3, P: "random", PV: 3})
+				}
+				return p
+			}
+			if n%5 == 4 {
+				// the same histories arrive through the bastion add-checkpoint endpoint: one request is one attempt
+				q := scenarios["C10"].Gen(r, tier, n)
+				q.Scenario = "bastion-counters"
+				return q
+			}
 			switch n % 3 {
 			case 1:
 				makeConcurrent(r, p)
@@ -712,6 +729,9 @@ func init() {
 			return p
 		},
 		Run: func(t *testing.T, p *Plan) *Outcome {
+			if p.Scenario == "bastion-counters" {
+				return c20ViaBastion(t, p)
+			}
 			res, out := baseOutcome(t, p, false)
 			if len(out.Infra) > 0 {
 				return out
